@@ -67,6 +67,9 @@ type vmCase struct {
 	bounds func(vars map[string]machine.Value) map[string]*big.Int
 	// metadata served by the store
 	meta map[string]map[string]string
+	// noTracked: the script uses `save`, which deliberately lowers the machine's
+	// spendable balance below initial + postings
+	noTracked bool
 }
 
 func symMonetary(name, asset string) machine.Monetary {
@@ -170,6 +173,9 @@ func checkCase(c vmCase) {
 	}
 	// tracked balances = initial + postings
 	for acc, byAsset := range m.Balances {
+		if c.noTracked {
+			break
+		}
 		for asset, b := range byAsset {
 			want := new(big.Int).Set(st.balance(string(acc), string(asset)))
 			if net[string(acc)] != nil && net[string(acc)][string(asset)] != nil {
